@@ -42,7 +42,7 @@ Proof.
 Qed.
 
 Lemma closeb_spec t x y : closeb t x y = true <-> close t x y.
-Proof. unfold closeb, close. rewrite andb_true_iff. tauto. Qed.
+Proof. unfold closeb, close. rewrite andb_true_iff, !Qleb_spec. tauto. Qed.
 
 (* ------------------------------------------------------------------------------- conditions 1, 2, 3 *)
 Lemma same_nodes_b_spec b a : same_nodes_b b a = true <-> same_nodes b a.
